@@ -5,6 +5,7 @@ mod cmd_fun2core;
 mod cmd_subst;
 mod cmd_rt;
 mod consts;
+mod gen_axlin;
 mod pipe;
 mod cmd_genfun;
 mod gen_fun;
@@ -80,6 +81,7 @@ fn main() {
         "genfun-stats" => { cmd_genfun::cmd_stats(num(2, 1), num(3, 100) as usize, args.get(4..).unwrap_or(&[])); return; }
         _ => {}
     }
+    if arg(1) == "show-gen" { cmd_backend::cmd_show_gen(arg(2), num(3, 1), num(4, 0) as usize); return; }
     let mut out: Box<dyn std::io::Write> = match args.get(4) {
         Some(p) if p != "-" => Box::new(std::io::BufWriter::new(std::fs::File::create(p).expect("create out"))),
         _ => Box::new(std::io::BufWriter::new(std::io::stdout())),
